@@ -50,6 +50,11 @@ func (f *FilterData) SelectorMatch(item any) bool {
 			continue
 		}
 
+		// an item without a value for this field does not match the selector
+		if itemF.Kind() != reflect.Ptr || itemF.IsNil() {
+			return false
+		}
+
 		itemValue := itemF.Elem().Interface()
 		if itemValue != value {
 			return false
